@@ -77,6 +77,11 @@ def enc4Bytes (p : V4.Pkt4) : Bytes :=
   | .ok b => b
   | _ => []
 
+/-- prefix-length octet and address of an IAPrefix (`Prefix == nil` writes 17 zero bytes) -/
+def encPfx : Option (Nat × IP) → Bytes
+  | some (ones, ip) => UInt8.ofNat ones :: write16 ip
+  | none => 0 :: zeros 16
+
 mutual
 /-- the option's value bytes: its `ToBytes()` -/
 def encOpt : Opt6 → Bytes
@@ -97,10 +102,7 @@ def encOpt : Opt6 → Bytes
   | .domainSearch l => l.toBytes
   | .iapd iaid t1 t2 os => copyInto 4 iaid ++ encDur t1 ++ encDur t2 ++ encOpts os
   | .iaprefix p v pfx os =>
-    encDur p ++ encDur v ++
-      (match pfx with
-       | some (ones, ip) => UInt8.ofNat ones :: write16 ip
-       | none => 0 :: zeros 16) ++ encOpts os
+    encDur p ++ encDur v ++ encPfx pfx ++ encOpts os
   | .infoRefresh d => encDur d
   | .remoteID en id => be32 en ++ id
   | .fqdn f n => f :: n.toBytes
@@ -163,7 +165,9 @@ def decDUID (data : Bytes) : Res DUID :=
   if !l.has 2 then .err
   else
     let (typ, l) := l.read16
-    if typ = 1 then
+    -- RFC 8415 §11.1: 1..128 octets after the type code
+    if l.len < 1 || l.len > 128 then .err
+    else if typ = 1 then
       let (ht, l) := l.read16
       let (t, l) := l.read32
       let (a, l) := l.readAll
@@ -222,7 +226,7 @@ def parseNTPSub (code : Nat) (data : Bytes) : Res NTPSub :=
     fin l (.mcAddr v)
   else if code = 3 then
     match Label.fromBytes data with
-    | .ok lb => .ok (.srvFQDN lb)
+    | .ok lb => if lb.labels.length ≠ 1 then .err else .ok (.srvFQDN lb)  -- RFC 5908 §4.3: one FQDN
     | .err => .err
     | .panic => .panic
   else .ok (.generic code data)
